@@ -39,7 +39,43 @@ type tr struct {
 	tuple  []ty            // component types of a "tuple" result
 	calls  map[string]bool // translated functions this one calls
 	tparam string          // name of the function's type parameter ("" if not generic)
+	loops  []loopCtx       // enclosing `for` statements (innermost last)
 	errVar map[string]string // error variables of `v, err := F(…)` inside the arm of the callee's answer: the Res constructor
+}
+
+// loopCtx is what `break` / `continue` / `return` inside the body of a `for` statement need: the state tuple of the loop and
+// the continuation that runs the post statement and starts the next iteration.
+type loopCtx struct {
+	tuple string
+	next  func(depth int) string
+}
+
+// wrapRet turns the text of a function result into the answer of a loop step when the position is inside a loop body.
+func (t *tr) wrapRet(e string) string {
+	if len(t.loops) > 0 {
+		return "Hive.GoInt.LoopStep.ret (" + e + ")"
+	}
+
+	return e
+}
+
+// zeroOf is the Lean text of the result a function gives when a loop runs out of fuel (does not terminate).
+func (t *tr) zeroOf() string {
+	lz := func(k ty) string {
+		if k == "bool" {
+			return "false"
+		}
+
+		return "(0 : Int)"
+	}
+	switch t.result {
+	case "res":
+		return "Res.panic"
+	case "tuple":
+		return "(" + lz(t.tuple[0]) + ", " + lz(t.tuple[1]) + ")"
+	}
+
+	return lz(ty(t.result))
 }
 
 // sig is the signature of a top-level function of the file (calls between translated functions).
@@ -68,6 +104,14 @@ type errHelperDef struct {
 }
 
 var errHelpers = map[string]errHelperDef{}
+
+// named value results of a function: zero-initialised locals
+type namedResult struct {
+	name string
+	k    ty
+}
+
+var namedResults = map[string][]namedResult{}
 
 // Go's math constants that bound the integer types
 var mathConsts = map[string]string{
@@ -671,6 +715,9 @@ func mayReturn(s ast.Stmt) bool {
 		if _, ok := n.(*ast.ReturnStmt); ok {
 			found = true
 		}
+		if b, ok := n.(*ast.BranchStmt); ok && (b.Tok == token.BREAK || b.Tok == token.CONTINUE) {
+			found = true // leaves the statement like a return does (only inside a loop body)
+		}
 
 		return true
 	})
@@ -709,7 +756,101 @@ func (t *tr) block(stmts []ast.Stmt, depth int, k func(depth int) string) string
 	cont := func(d int) string { return t.block(rest, d, k) }
 	switch s := s.(type) {
 	case *ast.ReturnStmt:
-		return ind(depth) + t.ret(s) + "\n"
+		return ind(depth) + t.wrapRet(t.ret(s)) + "\n"
+	case *ast.BranchStmt:
+		if len(t.loops) == 0 || s.Label != nil || (s.Tok != token.BREAK && s.Tok != token.CONTINUE) {
+			t.fail(s, "unsupported branch statement")
+
+			return ""
+		}
+		lc := t.loops[len(t.loops)-1]
+		if s.Tok == token.BREAK {
+			return ind(depth) + "Hive.GoInt.LoopStep.brk " + lc.tuple + "\n"
+		}
+
+		return lc.next(depth)
+	case *ast.ForStmt:
+		// `for init; cond; post { body }` as a fuel-bounded iteration (Hive.GoInt.loop) over the tuple of the variables the
+		// loop assigns; a loop that does not terminate within 65536 iterations answers `panic` (safemath loops are bounded
+		// by a width or a shift count)
+		if s.Init != nil {
+			as, ok := s.Init.(*ast.AssignStmt)
+			if !ok || as.Tok != token.DEFINE {
+				t.fail(s, "for with an init statement that is not a short variable declaration")
+
+				return ""
+			}
+			for _, l := range as.Lhs {
+				if id, ok := l.(*ast.Ident); ok {
+					if _, shadows := t.env[id.Name]; shadows {
+						t.fail(s, "for-init shadows "+id.Name)
+					}
+				}
+			}
+			plain := *s
+			plain.Init = nil
+
+			return t.block(append([]ast.Stmt{s.Init, &plain}, rest...), depth, k)
+		}
+		set := map[string]bool{}
+		assigned(s.Body, set)
+		if s.Post != nil {
+			assigned(s.Post, set)
+		}
+		var vars []string
+		for v := range set {
+			if _, ok := t.env[v]; ok {
+				vars = append(vars, v)
+			}
+		}
+		sort.Strings(vars)
+		tuple, tupleTy := "()", "Unit"
+		if len(vars) > 0 {
+			var ns, ts []string
+			for _, v := range vars {
+				ns = append(ns, leanName(v))
+				if t.env[v] == "bool" {
+					ts = append(ts, "Bool")
+				} else {
+					ts = append(ts, "Int")
+				}
+			}
+			tuple, tupleTy = strings.Join(ns, ", "), strings.Join(ts, " × ")
+			if len(vars) > 1 {
+				tuple = "(" + tuple + ")"
+			}
+		}
+		saved := t.snapshot()
+		next := func(d int) string {
+			fin := func(d2 int) string { return ind(d2) + "Hive.GoInt.LoopStep.next " + tuple + "\n" }
+			if s.Post == nil {
+				return fin(d)
+			}
+			sv := t.snapshot()
+			out := t.block([]ast.Stmt{s.Post}, d, fin)
+			t.restore(sv)
+
+			return out
+		}
+		t.loops = append(t.loops, loopCtx{tuple, next})
+		t.copies++
+		var step string
+		if s.Cond != nil {
+			c, _ := t.expr(s.Cond)
+			step = fmt.Sprintf("%sif %s then\n%s%selse\n%sHive.GoInt.LoopStep.brk %s\n", ind(depth+2), c, t.block(s.Body.List, depth+3, next), ind(depth+2), ind(depth+3), tuple)
+		} else {
+			step = t.block(s.Body.List, depth+2, next)
+		}
+		t.loops = t.loops[:len(t.loops)-1]
+		t.restore(saved)
+		if t.copies > 64 {
+			t.fail(s, "too many duplicated continuations")
+
+			return ""
+		}
+
+		return fmt.Sprintf("%smatch Hive.GoInt.loop 65536 %s (fun (%s : %s) =>\n%s%s) %s with\n%s| Sum.inl r_ => %s\n%s| Sum.inr %s =>\n%s",
+			ind(depth), t.zeroOf(), tuple, tupleTy, step, ind(depth+1), tuple, ind(depth), t.wrapRet("r_"), ind(depth), tuple, cont(depth+1))
 	case *ast.DeclStmt:
 		gd, ok := s.Decl.(*ast.GenDecl)
 		if !ok || (gd.Tok != token.VAR && gd.Tok != token.CONST) || len(gd.Specs) != 1 {
@@ -878,8 +1019,8 @@ func (t *tr) block(stmts []ast.Stmt, depth int, k func(depth int) string) string
 				t.env[v.Name] = sg.resTy
 				body := t.block(rest[1:], depth+1, k)
 
-				return fmt.Sprintf("%smatch %s with\n%s%s%s| Res.panic => Res.panic\n%s| Res.ok %s =>\n%s",
-					ind(depth), txt, armOv, armDz, ind(depth), ind(depth), leanName(v.Name), body)
+				return fmt.Sprintf("%smatch %s with\n%s%s%s| Res.panic => %s\n%s| Res.ok %s =>\n%s",
+					ind(depth), txt, armOv, armDz, ind(depth), t.wrapRet("Res.panic"), ind(depth), leanName(v.Name), body)
 			}
 		}
 		if len(s.Rhs) == 1 && len(s.Lhs) == 2 {
@@ -938,6 +1079,42 @@ func (t *tr) block(stmts []ast.Stmt, depth int, k func(depth int) string) string
 
 			return out + cont(depth)
 		}
+		if len(s.Lhs) == len(s.Rhs) && len(s.Lhs) >= 2 && (s.Tok == token.DEFINE || s.Tok == token.ASSIGN) {
+			// parallel assignment `a, b = e1, e2`: every right-hand side is evaluated before any variable changes
+			var names, exprs []string
+			var kinds []ty
+			for i, l := range s.Lhs {
+				id, ok := l.(*ast.Ident)
+				if !ok {
+					t.fail(s, "unsupported assignment target")
+
+					return ""
+				}
+				e, k := t.expr(s.Rhs[i])
+				if k == "lit" {
+					k = "int"
+				}
+				if old, exists := t.env[id.Name]; s.Tok == token.ASSIGN && id.Name != "_" {
+					if !exists {
+						t.fail(s, "assignment to an unknown variable "+id.Name)
+					}
+					if _, isLit := s.Rhs[i].(*ast.BasicLit); isLit || k == "int" && old != "int" {
+						k = old // an untyped constant takes the variable's type
+					}
+					if old != k {
+						t.fail(s, fmt.Sprintf("assignment changes type %s -> %s", old, k))
+					}
+				}
+				names, exprs, kinds = append(names, leanName(id.Name)), append(exprs, e), append(kinds, k)
+			}
+			for i, l := range s.Lhs {
+				if n := l.(*ast.Ident).Name; n != "_" {
+					t.env[n] = kinds[i]
+				}
+			}
+
+			return fmt.Sprintf("%slet (%s) := (%s)\n", ind(depth), strings.Join(names, ", "), strings.Join(exprs, ", ")) + cont(depth)
+		}
 		if len(s.Lhs) != 1 || len(s.Rhs) != 1 {
 			t.fail(s, "unsupported assignment")
 
@@ -948,6 +1125,12 @@ func (t *tr) block(stmts []ast.Stmt, depth int, k func(depth int) string) string
 			t.fail(s, "unsupported assignment target")
 
 			return ""
+		}
+		if isStringExpr(s.Rhs[0]) && (s.Tok == token.DEFINE || t.env[id.Name] == "string") {
+			// a string (operator name, formatted message): it cannot influence an integer result
+			t.env[id.Name] = "string"
+
+			return cont(depth)
 		}
 		e, k := t.expr(s.Rhs[0])
 		if k == "tuple" || k == "pair" || k == "pair?" {
@@ -1052,6 +1235,26 @@ func (t *tr) block(stmts []ast.Stmt, depth int, k func(depth int) string) string
 	t.fail(s, fmt.Sprintf("unsupported statement %T", s))
 
 	return ""
+}
+
+// isStringExpr recognises expressions that are evidently strings: literals, fmt.Sprint* / strconv.* calls, concatenations of such.
+func isStringExpr(e ast.Expr) bool {
+	switch e := e.(type) {
+	case *ast.BasicLit:
+		return e.Kind == token.STRING
+	case *ast.ParenExpr:
+		return isStringExpr(e.X)
+	case *ast.BinaryExpr:
+		return e.Op == token.ADD && (isStringExpr(e.X) || isStringExpr(e.Y))
+	case *ast.CallExpr:
+		if sel, ok := e.Fun.(*ast.SelectorExpr); ok {
+			if pk, ok := sel.X.(*ast.Ident); ok {
+				return (pk.Name == "fmt" && strings.HasPrefix(sel.Sel.Name, "Sprint")) || (pk.Name == "strconv" && (strings.HasPrefix(sel.Sel.Name, "Format") || sel.Sel.Name == "Itoa"))
+			}
+		}
+	}
+
+	return false
 }
 
 var compoundOps = map[token.Token]token.Token{
@@ -1359,8 +1562,32 @@ func main() {
 				allVals = false
 			}
 		}
+		if named {
+			// named results are plain locals (zero-initialised) as long as every return states its results
+			ast.Inspect(fd.Body, func(n ast.Node) bool {
+				if _, isLit := n.(*ast.FuncLit); isLit {
+					return false
+				}
+				if r, ok := n.(*ast.ReturnStmt); ok && len(r.Results) == 0 {
+					named = false
+					tys = nil // bare return: unsupported
+				}
+
+				return true
+			})
+			if named {
+				for _, r := range fd.Type.Results.List {
+					if k, ok := rt.tyName(r.Type); ok {
+						for _, n := range r.Names {
+							if n.Name != "_" {
+								namedResults[fd.Name.Name] = append(namedResults[fd.Name.Name], namedResult{n.Name, k})
+							}
+						}
+					}
+				}
+			}
+		}
 		switch {
-		case named:
 		case len(tys) == 2 && isIntTy(tys[0]) && tys[1] == "error":
 			sg.result, sg.resTy = "res", tys[0]
 		case len(tys) == 1 && tys[0] == "error":
@@ -1429,7 +1656,19 @@ func main() {
 				params = append(params, fmt.Sprintf("(%s : %s)", leanName(n.Name), lt))
 			}
 		}
-		body := t.block(fd.Body.List, 1, func(d int) string {
+		var prelude string
+		for _, nr := range namedResults[fd.Name.Name] {
+			if _, clash := t.env[nr.name]; clash {
+				continue
+			}
+			t.env[nr.name] = nr.k
+			if nr.k == "bool" {
+				prelude += fmt.Sprintf("  let %s : Bool := false\n", leanName(nr.name))
+			} else {
+				prelude += fmt.Sprintf("  let %s : Int := (0 : Int)\n", leanName(nr.name))
+			}
+		}
+		body := prelude + t.block(fd.Body.List, 1, func(d int) string {
 			t.fail(fd, "control reaches the end of the function without return")
 
 			return ""
